@@ -25,7 +25,7 @@ REWRITES = [rw for rw in u_modes.REWRITES if not (rw.only and all(o.startswith('
     Rewrite('S-fragment-close', r'\}\s*\Z', '} }', only=tuple('TreeBuilder::step__' + n for _, n in MODES)),
     Rewrite('R1-receiver', r'(fn \w+(?:<[^>]*>)?\(\s*)&self\b', r'\1&mut self', only=('TreeBuilder::close_the_cell', 'TreeBuilder::process_chars_in_table', 'TreeBuilder::foster_parent_in_body')),
     # R39: local tag sets
-    Rewrite('R39-localset', r'declare_tag_set!\(table_outer = "table" "tbody" "tfoot" "thead" "tr"\);', '', only=('TreeBuilder::process_chars_in_table',), min_count=1),
+    Rewrite('R39-localset', r'declare_tag_set!\(table_outer = [^;]*\);', '', only=('TreeBuilder::process_chars_in_table',), min_count=1),
     Rewrite('R39-localset', r'declare_tag_set!\(table_outer = [^;\[\]]*\);', '', only=('TreeBuilder::step__in_table_body',), min_count=1),
     Rewrite('R39-localset', r'self\.elem_in\(&e, table_outer\)', 'self.elem_in(&e, table_outer3)', only=('TreeBuilder::step__in_table_body',), min_count=1),
     Rewrite('R15-msg', r'to_escaped_string\(&token\)', '()'),
@@ -74,4 +74,9 @@ PARTS = BASE + [
     for m, n in MODES] + [
     Raw('} // verus!\nfn main() {}'),
 ]
+LOCAL_SETS = [
+    u_stack.local_set_check(H, r'fn process_chars_in_table\(', 'table_outer', 'tsl_table_outer', 'ts_table_outer(p)'),
+]
+PARTS = u_stack.with_local_sets(PARTS, LOCAL_SETS)
+
 DROPS = u_modes.DROPS
